@@ -133,6 +133,26 @@ def assigned_anywhere(src, names):
     return sorted(set(bad))
 
 
+def save_writes(src):
+    """what reb_simulation_save_to_stream (output.c) writes into the LIVE simulation it serialises: assignments to r->…
+    and calls that receive r without const (the anchored mechanism 'serialisation must not change the evolving state')"""
+    txt = open(os.path.join(src, "output.c")).read()
+    txt = re.sub(r"/\*.*?\*/", "", txt, flags=re.S)
+    txt = re.sub(r"//.*", "", txt)
+    m = re.search(r"void\s+reb_simulation_save_to_stream\s*\([^)]*\)\s*\{", txt)
+    if not m:
+        raise Infra("reb_simulation_save_to_stream not found in output.c")
+    i, depth = m.end(), 1
+    while i < len(txt) and depth:
+        depth += txt[i] == "{"
+        depth -= txt[i] == "}"
+        i += 1
+    body = txt[m.end():i]
+    writes = sorted(set(re.findall(r"\br->([\w\.\->\[\]]+?)\s*(?:[-+*/|&]?=(?!=)|\+\+|--)", body)))
+    calls = sorted(set(c for c in re.findall(r"\b(reb_\w+)\s*\(\s*r\s*[,)]", body)))
+    return writes, calls, len(body)
+
+
 def lstr(xs):
     return "[" + ", ".join('"%s"' % x for x in xs) + "]"
 
@@ -143,6 +163,7 @@ def generate(d):
     objs, syms, secs = object_symbols(src)
     und, so_wr = so_tables(d)
     statics = static_decls(src, objs)
+    sw, sc, sblen = save_writes(src)
     never = [n for n, e in allow["writable_globals"].items() if e.get("never_assigned")]
     assigned = assigned_anywhere(src, never)
     symbytes = {}
@@ -180,6 +201,13 @@ def generate(d):
     L.append("/-- allow-listed `never assigned` pointers that are assigned somewhere in src/ -/")
     L.append("def assignedNeverAssigned : List String := " + lstr(assigned))
     L.append("")
+    L.append("/-- fields of the live simulation that reb_simulation_save_to_stream assigns, and the functions it hands `r` to -/")
+    L.append("def saveWrites : List String := " + lstr(sw))
+    L.append("def saveCalls : List String := " + lstr(sc))
+    L.append("def saveBodyLength : Nat := %d" % sblen)
+    L.append("def allowSaveWrites : List String := " + lstr(sorted(allow.get("save_writes", {}))))
+    L.append("def allowSaveCalls : List String := " + lstr(sorted(allow.get("save_calls", {}))))
+    L.append("")
     L.append("/-! transcription of ref/C19_globals_allow.json -/")
     L.append("def allowGlobals : List String := " + lstr(sorted(allow["writable_globals"])))
     L.append("def allowToolchain : List String := " + lstr(sorted(allow["toolchain_symbols"])))
@@ -194,7 +222,8 @@ def generate(d):
     info = {"objects": len(objs), "writable_symbols": [(o, t, n) for o, t, n, s in syms],
             "undefined_refs": len(und), "static_mutable": [(f, n) for f, n, c in statics if not c],
             "static_const": len([1 for f, n, c in statics if c]), "assigned": assigned,
-            "so_writable": so_wr, "changed": changed,
+            "so_writable": so_wr, "changed": changed, "save_writes": sw, "save_calls": sc,
+            "unallowed_save_writes": sorted(set(sw) - set(allow.get("save_writes", {}))) + sorted(set(sc) - set(allow.get("save_calls", {}))),
             "unallowed_globals": sorted({n for o, t, n, s in syms if n not in allow["writable_globals"]}),
             "unallowed_statics": sorted({"%s:%s" % (f, n) for f, n, c in statics
                                          if not c and "%s:%s" % (f, n) not in allow["static_decls"]}),
